@@ -189,6 +189,14 @@ func c04HiddenFresh(c *Ctx, bi bodyImpl, tname string, pc *ssa.Function) {
 			for _, st := range sts {
 				mm, isMake := st.Val.(*ssa.MakeMap)
 				if !isMake {
+					// the map lives in a local cell (captured by a closure): every value the cell holds
+					if os := originsOf(st.Val, nil); len(os) == 1 {
+						if m2, ok := os[0].(*ssa.MakeMap); ok {
+							mm, isMake = m2, true
+						}
+					}
+				}
+				if !isMake {
 					// built by a helper method of the same receiver that returns a fresh copy
 					if freshCopyFromHelper(pc, st.Val, h) {
 						continue
@@ -207,6 +215,11 @@ func c04HiddenFresh(c *Ctx, bi bodyImpl, tname string, pc *ssa.Function) {
 							continue
 						}
 						target := mu.Map == ssa.Value(mm)
+						if !target {
+							if os := originsOf(mu.Map, nil); len(os) == 1 && os[0] == ssa.Value(mm) {
+								target = true
+							}
+						}
 						if u, isLd := mu.Map.(*ssa.UnOp); isLd && u.Op == token.MUL {
 							if fa, isFA := u.X.(*ssa.FieldAddr); isFA && fa.X == ssa.Value(al) && fieldVarOf(fa.X.Type(), fa.Field) == h {
 								target = true
